@@ -55,6 +55,7 @@ def main():
     ap.add_argument("--tier", default=os.environ.get("VERIF_TIER", "quick"), choices=["quick", "thorough"])
     ap.add_argument("--replay", default=None)
     ap.add_argument("--no-lean", action="store_true", help="development only: skip the Lean step")
+    ap.add_argument("--dev", action="store_true", help="development only: skip build/audit, keep model")
     args = ap.parse_args()
     prop = args.prop.upper()
     if prop not in PROPS:
@@ -68,7 +69,7 @@ def main():
 
     # 1. proof obligations ---------------------------------------------------------------
     proof = None
-    if not args.no_lean:
+    if not args.no_lean and not args.dev:
         proof = leanstep.run(prop, args.tier)
         if proof.get("fatal"):
             print(f"INTERNAL: Lean step failed: {proof['fatal']}")
